@@ -187,8 +187,19 @@ def gen_rule(ctx: Ctx, ge: GrammarEval, pp_) -> None:
         raise AnalysisError(f"R04.gen: only {n} expansion templates found (11 confirmed by hand)")
     # register_name is rebuilt from the parsed register: either the ABI name or "x" + number
     txt = " ".join(ast.unparse(pp_.node).split())
-    cnt = txt.count("[0] if type(line_parsed.")
-    r.check(cnt >= 6 and txt.count("else 'x' + line_parsed.") >= 6, "register-text", pp_.loc(), "register text is no longer rebuilt as ABI name or 'x'+number")
+    n_rt = 0
+    for n in ast.walk(pp_.node):
+        if isinstance(n, ast.Assign) and isinstance(n.targets[0], ast.Name) and "register_name" in n.targets[0].id and isinstance(n.value, ast.IfExp):
+            n_rt += 1
+            v = n.value
+            a = ast.unparse(v.body)                                   # line_parsed.R[0]
+            t = " ".join(ast.unparse(v.test).split())                 # type(line_parsed.R[0]) == str
+            e = " ".join(ast.unparse(v.orelse).split())               # 'x' + line_parsed.R[0][1]
+            reg = a[len("line_parsed."):-len("[0]")] if a.startswith("line_parsed.") and a.endswith("[0]") else None
+            ok = reg is not None and t == f"type(line_parsed.{reg}[0]) == str" and e == f"'x' + line_parsed.{reg}[0][1]"
+            r.check(ok, f"register-text|{n.targets[0].id}#{n_rt}", pp_.loc(n), f"`{n.targets[0].id}` is rebuilt from different operands: "
+                    f"value `{a}`, spelling test `{t}`, number `{e}` -- the three must name the same parsed register")
+    r.check(n_rt >= 6, "register-text", pp_.loc(), "register text is no longer rebuilt as ABI name or 'x'+number")
 
     # ------------------------------------------------------------ expansion groups
     r = ctx.rule("R04.expand", "documented expansion group per pseudo-instruction")
@@ -269,6 +280,19 @@ def once_rule(ctx: Ctx, pp_) -> None:
     ins = [c for c in calls_in(pp_.node) if ast.unparse(c.func) == "self.text.insert"]
     fact_a = any(isinstance(c.args[1], ast.Tuple) and ast.unparse(c.args[1].elts[0]) == "line_number" for c in ins if len(c.args) == 2)
     pl = m.method("RiscvParser", "_process_labels", own=True)
+    # the table must be keyed by something expansion cannot shift: the source line number
+    la0 = m.method("RiscvParser", "_list_access_at_zero_and_remove_inline_labels", own=True)
+    key_ok = None
+    for n in ast.walk(la0.node):
+        if isinstance(n, ast.For) and ast.unparse(n.iter) == "self.text" and isinstance(n.target, ast.Tuple) and n.target.elts:
+            lv = ast.unparse(n.target.elts[0])
+            for s in ast.walk(n):
+                if isinstance(s, ast.Assign) and isinstance(s.targets[0], ast.Subscript) and ast.unparse(s.targets[0].value) == "self.in_line_labels":
+                    key_ok = ast.unparse(s.targets[0].slice) == lv
+    if key_ok is False:
+        r.check(False, "in-line-label-key", la0.loc(), "in-line labels are keyed by something other than the source line number; pseudo-instruction "
+                "expansion shifts positions, so labels behind an expanding pseudo-instruction would be bound to the wrong entry")
+        return
     # fact B: the label pass looks the in-line label up by line number for every entry
     guard = None
     for n in walk_no_nested(pl.node):
